@@ -379,6 +379,10 @@ MUTANTS.extend(_R3_W3)
 from mutants_r4_w3 import E as _R4_W3  # noqa: E402
 
 MUTANTS.extend(_R4_W3)
+# round 5 (worker W3): row order under any index (F24), writer aliases, handles read before, whole-function readers, fit test on tables
+from mutants_r5_w3 import E as _R5_W3  # noqa: E402
+
+MUTANTS.extend(_R5_W3)
 # round 4 (worker W1): classes added to the evaluated rules of C01, C02, C12, C13, C16
 from mutants_r4_w1 import E as _R4_W1  # noqa: E402
 
